@@ -319,6 +319,26 @@ def rule_SL(ctx, tier):
             rr.ok("refund = available + slots(stored blob)", sample={"rule": "SL", "refund write": s[:200]})
         else:
             rr.fail("refund:formula", "refund writes `%s`" % s[:200], where=d.line_of(bb))
+    # the balance persisted with the deletion is the FINAL in-memory balance: every refund (re)writes the user's
+    # entry in the map handed to batch_remove_appointments, read after the addition
+    from .rulekit import is_iter_next
+    ins = [x for x in sites_containing(d, "HashMap", "::insert") if "f:registered_users" not in og.show(arg_origin(ctx, d, x, 0))]
+    weak = [x for x in sites_containing(d, "Entry", "or_insert") + sites_containing(d, "HashMap", "::entry") + sites_containing(d, "try_insert")]
+    for bb, v in ws:
+        if ins and always_reaches(d, d.succ(bb) or [bb], ins, lambda x: is_iter_next(d, x)) if d.succ(bb) else False:
+            rr.ok("refund: updated_users entry overwritten after every addition")
+        else:
+            # the write is a statement inside a block; continue from that block itself
+            if ins and always_reaches(d, [bb], ins, lambda x: is_iter_next(d, x)):
+                rr.ok("refund: updated_users entry overwritten after every addition")
+            else:
+                rr.fail("refund:stale-snapshot", "after adding slots back, the user's entry in the map persisted by batch_remove_appointments is not overwritten on every iteration%s: with several refunds for one user the database keeps an earlier balance than memory" % (" (a non-overwriting entry/or_insert is used)" if weak else ""), where=d.line_of(bb))
+    for x in ins:
+        val = og.show(arg_origin(ctx, d, x, 2))
+        if "registered_users" in val or "get_mut" in val or "index" in val:
+            rr.ok("refund: persisted value read from the in-memory map")
+        else:
+            rr.fail("refund:persisted-value", "the value stored for persistence is `%s`, not the user's in-memory record" % val[:100], where=d.line_of(x))
     for bb in sites(d, DBM + "batch_remove_appointments"):
         a2 = og.show(arg_origin(ctx, d, bb, 2))
         if "HashMap" in a2 or "phi" in a2:
@@ -358,7 +378,7 @@ def rule_SL(ctx, tier):
         rr.ok("add_appointment reports (receipt, slots from add_update_appointment, expiry from the gatekeeper)")
     else:
         rr.fail("report:slots", "Watcher::add_appointment does not return the balance computed by add_update_appointment", where=a.span)
-    rr.require_floor(11, "SL instances")
+    rr.require_floor(13, "SL instances")
     return rr
 
 
